@@ -414,3 +414,40 @@ M.contract(P_CWCP + ':StringSourceContentsWithCachedPath.as_file',
                     old[1] is not None or file_stored(result) == raw_txt(self),
                     **_reread(at=0)},
            raises_only=(HardErrorException,))
+
+
+# ============================================================================== construction: the objects are in the proved shapes
+
+from pyvc.api import EnumOf          # noqa: E402
+from exactly_lib.impls.types.string_source.command_output import string_source as cmd_string_source          # noqa: E402
+from exactly_lib.util.process_execution.process_output_files import ProcOutputFile                           # noqa: E402
+
+P_CSS = 'exactly_lib.impls.types.string_source.command_output.string_source'
+
+
+def _is_program_contents(c):
+    """one of the contents classes proved above over one of the writers / file creators proved above"""
+    if type(c) is contents_via_file.ContentsViaFile:
+        return type(c._file_creator) is exit_relevant.StderrFileCreator
+    return type(c) is contents_via_write_to.ContentsViaWriteTo \
+        and type(c._writer) in (exit_ignored.StdoutWriter, exit_ignored.StderrWriter, exit_relevant.StdoutWriter)
+
+
+def channel_txt(channel, command):
+    """what the program writes to the captured channel"""
+    t = command.stdin.txt
+    return command.command.ERR(t) if channel is ProcOutputFile.STDERR else command.command.OUT(t)
+
+
+M.contract(P_CSS + ':_contents',
+           params=dict(ignore_exit_code=Bool, output_channel_to_capture=EnumOf(ProcOutputFile), command=COMMAND_W_STDIN,
+                       proc_exe_settings=SETTINGS, command_executor=Iface(ExecutorI), tmp_file_space=Iface(DirFileSpaceI)),
+           ensures={'implements I_SSC: one of the classes / writers proved above, nothing cached (the class invariant holds)':
+                    lambda result: _is_program_contents(result) and result._as_file_path is None
+                    and prog_cached_path_ok(result),
+                    'its text is what the program writes to the captured channel':
+                    lambda output_channel_to_capture, command, result:
+                    raw_txt(result) == channel_txt(output_channel_to_capture, command),
+                    'the exit code matters unless it is to be ignored': lambda ignore_exit_code, result:
+                    ignore_exit_code == (type(_starter(result)) in (exit_ignored.StdoutWriter, exit_ignored.StderrWriter))},
+           raises_only=())
